@@ -17,18 +17,12 @@ Arguments CTransform {F}. Arguments CTagAs {F}. Arguments CSetAttr {F}. Argument
 Inductive cm_out (F : Type) := OutNone | OutPoints (pts : list (vec3 F)) | OutOther.
 Arguments OutNone {F}. Arguments OutPoints {F}. Arguments OutOther {F}.
 
-(* __getattr__ is only consulted when ordinary attribute lookup fails: a tag whose name is a method of the class or
-   one of the four instance attributes is never converted on an attribute read, Python returns the attribute itself *)
-(* = sorted(dir(CoordinateManager())) on the pinned interpreter; tools/props/C04.py compares this list with the real
-   dir() on every run and with its own copy, fail-closed *)
-Definition class_attributes : list string :=
-  ["__class__"; "__delattr__"; "__dict__"; "__dir__"; "__doc__"; "__eq__"; "__format__"; "__ge__";
-   "__getattr__"; "__getattribute__"; "__getstate__"; "__gt__"; "__hash__"; "__init__"; "__init_subclass__";
-   "__le__"; "__lt__"; "__module__"; "__ne__"; "__new__"; "__reduce__"; "__reduce_ex__"; "__repr__";
-   "__setattr__"; "__sizeof__"; "__str__"; "__subclasshook__"; "__weakref__"; "_points"; "_points_tag";
-   "_tags_to_indices"; "_transform"; "append_transform"; "convert_units"; "do_transform"; "flip";
-   "non_uniform_scale"; "reorient"; "rotate"; "tag_as"; "translate"; "uniform_scale"]%string.
-Definition attr_shadowed (name : string) : bool := existsb (String.eqb name) class_attributes.
+(* __getattr__ is only consulted when ordinary attribute lookup fails: a tag whose name is an attribute of the object
+   (a method of the class, an inherited dunder name, an instance attribute) is never converted on an attribute read,
+   Python returns the attribute itself.  The list of attribute names is DATA: the harness reads dir(CoordinateManager())
+   from the code on every run and passes it in, and every theorem is quantified over it, so that adding or renaming
+   private helpers changes nothing.  pts_attr is the name of the instance attribute that holds the assigned array. *)
+Definition attr_shadowed (attrs : list string) (name : string) : bool := existsb (String.eqb name) attrs.
 
 (* _tags_to_indices: a dict; the most recent binding of a name is found first *)
 Fixpoint tag_lookup (name : string) (tags : list (string * nat)) : option nat :=
@@ -62,7 +56,7 @@ Section CoordMgr.
         end
     end.
 
-  Definition cm_step (st : cm_state) (o : cm_op F) : cm_state * result (cm_out F) :=
+  Definition cm_step (attrs : list string) (pts_attr : string) (st : cm_state) (o : cm_op F) : cm_state * result (cm_out F) :=
     match o with
     | CTransform t =>
         match step O (cm_tr st) t with
@@ -76,9 +70,9 @@ Section CoordMgr.
         | Some _ => (MkCM (cm_tags st) (Some (name, pts)) (cm_tr st), Ok OutNone)
         end
     | CGetAttr name =>
-        if attr_shadowed name then
-          (* the attribute itself: for "_points" the raw stored array (None before any assignment), else an object *)
-          (st, Ok (if String.eqb name "_points"
+        if attr_shadowed attrs name then
+          (* the attribute itself: for pts_attr the raw stored array (None before any assignment), else an object *)
+          (st, Ok (if String.eqb name pts_attr
                    then match cm_points st with Some (_, pts) => OutPoints pts | None => OutOther end
                    else OutOther))
         else
@@ -89,11 +83,12 @@ Section CoordMgr.
     | CDoTransform pts a b => (st, rmap OutPoints (do_transform st pts a b))
     end.
 
-  Fixpoint cm_run (ops : list (cm_op F)) (st : cm_state) : cm_state * list (result (cm_out F)) :=
+  Fixpoint cm_run (attrs : list string) (pts_attr : string) (ops : list (cm_op F)) (st : cm_state) : cm_state * list (result (cm_out F)) :=
     match ops with
     | [] => (st, [])
-    | o :: r => let (st', res) := cm_step st o in
-                let (st'', rest) := cm_run r st' in (st'', res :: rest)
+    | o :: r => let (st', res) := cm_step attrs pts_attr st o in
+                let (st'', rest) := cm_run attrs pts_attr r st' in (st'', res :: rest)
     end.
-  Definition cm_final (ops : list (cm_op F)) (st : cm_state) : cm_state := fold_left (fun s o => fst (cm_step s o)) ops st.
+  Definition cm_final (attrs : list string) (pts_attr : string) (ops : list (cm_op F)) (st : cm_state) : cm_state :=
+    fold_left (fun s o => fst (cm_step attrs pts_attr s o)) ops st.
 End CoordMgr.
